@@ -291,15 +291,25 @@ func c13Run(c *Ctx, tp *tape.Tape, extra map[string]any) *Failure {
 			cs := &CiscoCase{Kind: "IOS", A: d.node, PO: &cisco.PrintOpt{}}
 			r := c.LiveCisco(cs, oo, tape.Replay(nil))
 			disturbed := r.Dev.FaultSeq >= 0 || r.Res.Exit != 0 || r.Trouble != ""
+			// What an undisturbed compare observes is decided by the device
+			// and the code of the policy, not by what the run wrote into its
+			// log: the planning entry point compares the two directly.
+			cs3 := x.code[polStart][d.name]
+			files := map[string]string{"router": cs3[0]}
+			if cs3[1] != "" {
+				files["ipv6/router"] = cs3[1]
+			}
+			if cs3[2] != "" {
+				files["router.raw"] = cs3[2]
+			}
+			truth := c.PlanCompare("IOS", cisco.Print(d.node, nil), files)
 			switch {
-			case disturbed:
+			case disturbed || truth.Exit != 0 || truth.Panic != "":
 				d.obs = obsUnjudged
-			case strings.Contains(r.RunLog, "comp: device unchanged"):
+			case len(truth.Script) == 0:
 				d.obs, d.obsPol, d.damaged = obsUptodate, polStart, false
-			case strings.Contains(r.RunLog, "comp: *** device changed"):
-				d.obs, d.obsPol, d.damaged = obsDiff, polStart, false
 			default:
-				d.obs = obsUnjudged
+				d.obs, d.obsPol, d.damaged = obsDiff, polStart, false
 			}
 			what = fmt.Sprintf("compare %s at p%d: exit %d -> %s", d.name, polStart, r.Res.Exit, d.obs)
 		case op == 9: // manual drift on the device
